@@ -18,6 +18,8 @@ import (
 
 	"github.com/samsarahq/thunder/reactive"
 	"pgregory.net/rapid"
+
+	"verifharness/ev"
 )
 
 type Read struct {
@@ -699,7 +701,7 @@ func Run(c Case, checkCleanup bool) (Result, string, error) {
 			if atomic.LoadInt32(&rn.entries) != atomic.LoadInt32(&rn.exits) {
 				atomic.AddInt32(&m.hits.StopDuringRun, 1)
 			}
-			if !stopWithin(rn.rr, 10*time.Second) {
+			if !stopWithin(rn.rr, ev.Patience(10*time.Second)) {
 				return res, "wedged", fmt.Errorf("Stop of rerunner %d does not return within 10s although no run takes more than milliseconds: the rerunner is wedged and will never run again", rn.idx)
 			}
 			e, x := atomic.LoadInt32(&rn.entries), atomic.LoadInt32(&rn.exits)
@@ -880,7 +882,7 @@ func Run(c Case, checkCleanup bool) (Result, string, error) {
 		return res, "straggler-stuck", fmt.Errorf("a goroutine that called reactive.Cache with the context of a finished run is still blocked 5s later")
 	}
 	for _, rn := range m.runners {
-		if !stopWithin(rn.rr, 10*time.Second) {
+		if !stopWithin(rn.rr, ev.Patience(10*time.Second)) {
 			return res, "wedged", fmt.Errorf("Stop of rerunner %d does not return within 10s although no run takes more than milliseconds: the rerunner is wedged and will never run again", rn.idx)
 		}
 		rn.mu.Lock()
